@@ -254,7 +254,8 @@ impl Read for SimReader {
             }
         }
         let k = k as usize;
-        let p = self.pos as usize;
+        // a position beyond the end (after a seek past a truncation) delivers nothing, like a file
+        let p = (self.pos as usize).min(self.data.len());
         buf[..k].copy_from_slice(&self.data[p..p + k]);
         self.pos += k as u64;
         self.stats.bytes += k as u64;
